@@ -7,6 +7,41 @@ CORR = ("the hand-written Coq model is executed (extracted OCaml + vm_compute sa
         "library and every projected observable is diffed; an independent exact-rational oracle judges the implementation's own outputs")
 
 CLAIMED = {
+ "C03": dict(
+    category="other",
+    text="FMA: executable Coq model (umul at MaxPrec, then Add, with the zero-addend and alias branches) with no closed FMA theorem "
+         "yet (the Add/Mul theorems of C01 cover its two halves); decided by correspondence: " + CORR + " (x*y+u rounded once, IEEE "
+         "zero-sum sign, all 15 aliasing shapes, comparison with Mul-then-Add). Known finding K3 (product exponent outside int32).",
+    design_ref="DESIGN.md section 6 C03",
+    note="Model + correspondence + independent oracle; theorem pending; K3 reported as KNOWN-FINDING.",
+    technique="Coq executable model + model/code correspondence with exact-rational oracle"),
+ "C09": dict(
+    category="other",
+    text="Precision/mode stickiness and operand immutability: in the value-level model every operation writes only its receiver and "
+         "the C01/C04 theorems state the receiver's resulting precision and mode for Add Sub Mul Quo Set SetPrec Neg Abs; the "
+         "program-level theorem over all operations is not closed, so the property is decided by correspondence: " + CORR +
+         " (documented precision/mode table per operation; every non-receiver variable compared with its previous full raw state).",
+    design_ref="DESIGN.md section 6 C09",
+    note="Partial proof + exploration by random programs.",
+    technique="Coq per-operation lemmas + model/code correspondence with a documented-attribute table"),
+ "C10": dict(
+    category="other",
+    text="Aliasing/previous-contents independence: the value-level model computes results from (receiver precision, receiver mode, "
+         "operand values) only, so independence holds in the model by construction; the tie of that model to the code IS the "
+         "property and is decided by correspondence over every aliasing shape (5 binary, 15 FMA, 2 unary) and receiver history "
+         "(longer/shorter/special previous values, capacities, stale words): " + CORR + " plus a group judge comparing the "
+         "implementation's results within each group of equivalent calls.",
+    design_ref="DESIGN.md section 6 C10",
+    note="Buffer-level independence (capacity, stale words, in-place word movement in dec.*) is exercised, not proved.",
+    technique="Coq value-level model (alias-free by construction) + exhaustive aliasing-shape correspondence"),
+ "C19": dict(
+    category="other",
+    text="Context: executable Coq model of context.Context (apply-then-operate, ErrNaN latch, Err) decided by correspondence: " + CORR +
+         " (rounding to the context's precision/mode for receivers distinct from operands, store untouched while an ErrNaN is "
+         "pending, Err() reports exactly once, nil-operand run-time errors escape).",
+    design_ref="DESIGN.md section 6 C19",
+    note="Model + correspondence + independent oracle; latch theorem pending.",
+    technique="Coq executable state-machine model + model/code correspondence over random operation sequences"),
  "C08": dict(
     category="other",
     text="Canonical-form invariant WF: proved preserved by round/setExpAndRound/Add/Sub/Mul/Quo/Set/SetPrec/Neg/Abs (the C01/C04 "
